@@ -88,4 +88,10 @@ theorem src_list_transformers_rebuilt_in_fit_order :
 /-- serialising never renames an array of the caller in place -/
 theorem src_serialize_pure : Gen.serializeRenamesInPlace = false := by decide
 
+/-- source obligation: a string that is no Python literal is kept whichever way `literal_eval` rejects it — malformed node
+(`ValueError`) or not an expression at all (`SyntaxError`, e.g. `[m s-1]`) -/
+theorem src_non_literals_kept :
+    Gen.desanitizeKeepsNonLiterals = true ∧ Gen.literalEvalCaught.contains "ValueError" = true ∧
+    Gen.literalEvalCaught.contains "SyntaxError" = true := by decide
+
 end C13
